@@ -1,8 +1,10 @@
 """C13 — frame readers deliver each frame once, in order, and always end the stream.
 
-Model + theorems: coq/theories/C13/{Stream,Lemmas,Props}.v (a transition system of the
-reader thread, the bounded queue and the consumer loop; invariant, deadlock freedom,
-termination on every schedule, sound trace checker `accepts`).
+Model + theorems: coq/theories/C13/{Stream,Lemmas,Poll,PollLemmas,Props}.v (a transition system of the
+reader thread, the bounded queue and the consumer loop; queue items carry (orig_size, video_idx) of the
+frame they were built from; invariant, own-payload theorem, deadlock freedom, termination on every
+schedule, exact trace checker `accepts`; request model of the constructors incl. ranges that run past
+the end of the video = derived read failure).
 
 Tie to /repo, every run:
   static   translator/c13_skel2coq.py re-extracts the control skeleton of VideoReader.run,
@@ -11,8 +13,9 @@ Tie to /repo, every run:
   dynamic  the REAL run() threads and the REAL _predict_generator are executed under a
            scheduling controller (harness/c13_sched.py) for every schedule of small
            configurations (exhaustive) and sampled schedules of larger ones, with a read
-           fault injected at every position; each recorded trace must be accepted by the
-           Coq trace checker (vm_compute), and
+           fault injected at every position; each recorded trace (put / get events with the payload
+           observed) must be accepted by the Coq trace checker (vm_compute); the plain VideoReader on a
+           real sio.Video with ranges past the end agrees with the fake video and the request model, and
   oracle   the property itself is evaluated in Python on what the real code did (frames
            yielded = the specified ones, in order, own index and size, right batches, one
            marker, reader thread dead, no deadlock / hang / escaped exception).
@@ -54,16 +57,28 @@ def resolved_range(case):
     return case["start"], case["end"]
 
 
-def spec_frames(start, end, fault):
-    stop = end
+def video_len(case):
+    """Number of frames of the (fake) video of a video case: what FakeVideo is built with in run_schedule."""
+    if case.get("args") is not None:
+        return case["args"][2]
+    if case.get("defaults"):
+        return case["end"]
+    return max(case["start"], case["end"]) + 2
+
+
+def spec_frames(start, end, fault, n_exist=None):
+    """The frames that must be delivered: those of the requested range that exist (a range may run past the
+    end of the video: reading the first index that does not exist fails, the frames before it are delivered
+    and the stream is closed), up to the first one that cannot be read."""
+    stop = end if n_exist is None else min(end, n_exist)
     if fault is not None and fault >= start:
-        stop = min(fault, end)
+        stop = min(fault, stop)
     return list(range(start, stop)) if stop > start else []
 
 
 def spec_of(case):
     start, end = resolved_range(case)
-    return spec_frames(start, end, case["fault"])
+    return spec_frames(start, end, case["fault"], video_len(case) if case["reader"] == "video" else None)
 
 
 def label_of(reader, i):
@@ -80,6 +95,13 @@ def model_fault(case):
     """The fault position of the model configuration (Poll.labels_cfg): a bare frame acts as a fault of
     the unrepaired LabelsReader when instances are requested.  Statistics only."""
     f = case["fault"]
+    if case["reader"] == "video":          # Poll.video_fault: injected fault from the start on, or the end of the video
+        start, end = resolved_range(case)
+        n = video_len(case)
+        f = f if (f is not None and f >= start) else None
+        if n < end:
+            f = max(start, n) if f is None else min(f, max(start, n))
+        return f
     if case.get("instances_key") and case.get("bare") and not STATE["f130_fixed"]:
         b = min(case["bare"])
         return b if f is None else min(f, b)
@@ -220,7 +242,10 @@ def events_term(reader, trace, x=False):
             if d.get("sentinel"):
                 t = "EvPutSent" if k == "put" else "EvGetSent"
             elif "frame_idx" in d:
-                t = f"{'EvPut' if k == 'put' else 'EvGet'} {_pos(reader, d['frame_idx'])}"
+                # the payload the item carries (orig_size, video_idx) is part of the event: the model compares it
+                # with the source (Stream.exec1, c13_items_carry_own_payload)
+                t = (f"{'EvPut' if k == 'put' else 'EvGet'} {_pos(reader, d['frame_idx'])} "
+                     f"({int(d['size'][0])}, {int(d['size'][1])}, {int(d['video_idx'])})")
             else:
                 raise Untranslatable("unrecognised queue item")
         elif k == "yield":
@@ -243,6 +268,19 @@ def _copt(v):
     return "None" if v is None else f"(Some {v})"
 
 
+def src_table(case):
+    """What the fake source holds, as a Poll.tbl term: for every position the size of its image and the index of
+    its video (VideoReader: always 0).  Independent of what the reader reports."""
+    if case["reader"] == "video":
+        _, end = resolved_range(case)
+        n = max(end, video_len(case)) + 1
+        rows = [(*S.frame_size(i), 0) for i in range(n)]
+    else:
+        nv = case.get("n_videos", 1)
+        rows = [(*S.frame_size(i), S.vid_of(i, nv)) for i in range(case["end"])]
+    return "(tbl [" + "; ".join(f"({h}, {w}, {v})" for h, w, v in rows) + "])"
+
+
 def request_term(case):
     """The request as a term of Poll.vrequest / Poll.lrequest (constructor arguments as given)."""
     if case["reader"] == "video":
@@ -252,12 +290,12 @@ def request_term(case):
             a_start, a_end, n_total = None, None, case["end"]
         else:
             a_start, a_end, n_total = case["start"], case["end"], max(case["start"], case["end"]) + 2
-        return (f"ReqVideo (mkVReq {n_total} {_copt(a_start)} {_copt(a_end)} {case['cap']} {case['batch']} "
-                f"{_copt(case['fault'])})")
+        return (f"ReqVideo (mkVReqS {n_total} {_copt(a_start)} {_copt(a_end)} {case['cap']} {case['batch']} "
+                f"{_copt(case['fault'])} {src_table(case)})")
     bare = sorted(case.get("bare", ()))
-    return (f"ReqLabels (mkLReq {case['end']} {case['cap']} {case['batch']} {_copt(case['fault'])} "
+    return (f"ReqLabels (mkLReqS {case['end']} {case['cap']} {case['batch']} {_copt(case['fault'])} "
             f"{'true' if case.get('instances_key') else 'false'} {_copt(bare[0] if bare else None)} "
-            f"{'true' if STATE['f130_fixed'] else 'false'})")
+            f"{'true' if STATE['f130_fixed'] else 'false'} {src_table(case)})")
 
 
 def cfg_term(case):
@@ -463,6 +501,15 @@ def construction_configs(tier):
                 out.append(_vcase(a_start, a_end, 3, 1, 2, fault, ctor))
     out.append(_vcase(None, 0, 4, 2, 1, None, "from_filename"))
     out.append(_vcase(0, None, 4, 0, 3, 2, "from_filename"))
+    # the requested range runs past the end of the video (end_idx > len(video)): video[len] raises IndexError,
+    # a read failure; the start may lie on or past the end too; an undecodable frame before / at / after the end
+    for ctor in ("from_filename", "direct"):
+        for a_start, a_end, n_total in ((None, 5, 3), (1, 4, 3), (0, 3, 2), (3, 5, 3), (4, 6, 3), (None, 2, 0), (2, 4, 1)):
+            for fault in (None, 1, 3):
+                if fault is None or ctor == "direct":
+                    out.append(_vcase(a_start, a_end, n_total, 1 if fault is None else 2, 2, fault, ctor))
+    out.append(_vcase(None, 4, 2, 0, 1, None, "direct"))
+    out.append(_vcase(1, 5, 3, 1, 3, None, "direct"))
     for nv in (2, 3):
         for batch in (1, 3):
             for fault in (None, 2):
@@ -547,6 +594,9 @@ def sampled_cases(rng, tier):
             case["bare"] = sorted(rng.sample(range(n), rng.randint(1, min(2, n))))
         if rng.random() < 0.3:
             case["ctor"] = "from_filename"
+        if reader == "video" and rng.random() < 0.3:
+            # explicit constructor arguments; the video is shorter than the requested end in most of these
+            case["args"] = [start, start + n, rng.randint(0, start + n + 1)]
         if rng.random() < 0.15:
             case["poll"] = "retry"
         if rng.random() < 0.5:
@@ -579,6 +629,68 @@ def static_tie(run: core.Run):
     return g
 
 
+class _NoCtl:
+    """Controller stand-in for running a fake source under the plain (uncontrolled) reader."""
+    def park(self, *a):
+        pass
+
+    def event(self, *a):
+        pass
+
+
+def _plain_read(video, a_start, a_end):
+    """The repo's VideoReader, unmodified, with a plain unbounded queue.Queue: what it puts, and total_len()."""
+    import queue as _q
+    from sleap_nn.data.providers import VideoReader
+    fb = _q.Queue(maxsize=0)
+    rd = VideoReader(video, fb, a_start, a_end)
+    rd.daemon = True
+    rd.start()
+    rd.join(S.WATCHDOG_S)
+    items = []
+    while not fb.empty():
+        it = fb.get()
+        items.append(None if it["image"] is None else int(it["frame_idx"]))
+    return {"items": items, "total_len": int(rd.total_len()), "alive": rd.is_alive()}
+
+
+def real_video_fidelity(run: core.Run):
+    """A range that runs past the end of the video (review round 4, finding 1): what a REAL sio.Video does, what
+    the fake video does under the same plain reader, what the request model says.  All three must agree:
+    the frames that exist + one marker, total_len() = end - start."""
+    import sleap_io as sio
+    name = ("correspondence: VideoReader on a real sio.Video (tests/assets/centered_pair_small.mp4) with a range that "
+            "runs past the end / starts at the end / ends at the end delivers what Poll.video_cfg says (existing frames, "
+            "marker, total_len), and FakeVideo fails at the same indices as the real video")
+    try:
+        video = sio.load_video(str(core.REPO / "tests" / "assets" / "centered_pair_small.mp4"))
+        n = int(video.shape[0])
+        rows, terms, bad = [], [], []
+        for a_start, a_end in ((n - 2, n + 3), (n, n + 2), (n - 2, None), (n - 1, n)):
+            real = _plain_read(video, a_start, a_end)
+            # the same request shifted to a 5-frame fake video
+            sh = n - 5
+            fake = _plain_read(S.FakeVideo(5, None, _NoCtl()), a_start - sh, None if a_end is None else a_end - sh)
+            end = n if a_end is None else a_end
+            want = spec_frames(a_start, end, None, n)
+            if real["items"] != want + [None] or real["alive"] or real["total_len"] != end - a_start:
+                bad.append(f"real video {a_start, a_end}: {real}, specified {want} + marker")
+            if [None if x is None else x + sh for x in fake["items"]] != real["items"] or fake["total_len"] != real["total_len"]:
+                bad.append(f"fake video differs from the real one for {a_start, a_end}: {fake} vs {real}")
+            terms.append(f"ReqVideo (mkVReq {n} (Some {a_start}) {_copt(a_end)} 0 1 None)")
+            rows.append((a_start, a_end, real))
+        for (a_start, a_end, real), rv in zip(rows, core.coq_eval_sharded(PREAMBLE, terms, "check_request", "rreq", shard=10)):
+            if rv["delivered"] + [None] != real["items"] or rv["total_len"][0] - rv["total_len"][1] != real["total_len"]:
+                bad.append(f"request model {rv} vs real video {real} for {a_start, a_end}")
+        run.coverage["real_video_overrun"] = [{"start": a, "end": b, "delivered": r["items"][:-1], "total_len": r["total_len"]}
+                                              for a, b, r in rows]
+    except Exception as e:      # noqa: BLE001
+        bad = [f"{type(e).__name__}: {e}"]
+    run.obligation(name, not bad, "; ".join(bad[:3]))
+    if bad:
+        run.proof_broken.append("real-video replay: " + bad[0])
+
+
 def check(run: core.Run) -> int:
     run.build_and_prove(PROP_FILES)
     static_tie(run)
@@ -588,6 +700,7 @@ def check(run: core.Run) -> int:
     logger.disable("sleap_nn")              # the readers log every injected fault
     S.repo_classes()
     rng = run.rng
+    real_video_fidelity(run)
     t0 = time.time()
 
     # --- finding F130: replay the corpus witness; which LabelsReader does the code have?
